@@ -78,6 +78,9 @@ def gen_process(r):
     elif k < 0.5:
         p["wd"] = None
         p["wd_explicit_app"] = True
+    elif k < 0.56:
+        p["wd_hex"] = r.choice([b"/srv/\xff\xfe", b"rel/\x80dir", b"\xc3"]).hex()
+        intent["wd"] = "<non-utf8>"
     return p, intent
 
 
@@ -126,9 +129,13 @@ def gen_plan(r):
         elif k == "requires":
             name = r.choice(S)
             style = r.random()
-            if style < 0.5:
+            if style < 0.35:
                 md = tomlw.rnd_table(r, 1)
                 calls.append(["requires", name, tomlw.tagged(md)])
+                groups[-1]["requires"].append((name, md))
+            elif style < 0.5:
+                md0, md = tomlw.rnd_table(r, 1), tomlw.rnd_table(r, 1)        # metadata() twice: the second call replaces the first
+                calls.append(["requires", name, tomlw.tagged(md0), tomlw.tagged(md)])
                 groups[-1]["requires"].append((name, md))
             elif style < 0.75:
                 calls.append(["requires", name, None, "Require::new"])
@@ -256,6 +263,15 @@ def run_doc(mon, base, idx, kind, req, intent, sh):
     sh.evaluations += 1
     if "input_rejected" in rep:
         sh.count("inputs_rejected_by_constructors")
+        return
+    if kind == "launch" and any(p.get("wd") == "<non-utf8>" for p in intent["processes"]):
+        # TOML text cannot hold such a path: the only acceptable outcome is a reported error (never a silently altered directory)
+        if "write_err" not in rep:
+            sh.violation("launch:non-utf8-working-dir", "a process working directory that is not valid UTF-8 was written without error: %r" % open(path, "rb").read()[:300], case)
+        else:
+            sh.nontrivial.add(("launch", "non-utf8-wd-refused"))
+        if os.path.exists(path):
+            os.unlink(path)
         return
     if "write_err" in rep:
         sh.violation("%s:write-error" % kind, "writing a %s built through the public API failed: %s" % (kind, rep["write_err"]), case)
